@@ -2,6 +2,7 @@ package main
 
 import (
 	"go/token"
+	"go/types"
 	"strings"
 
 	"golang.org/x/tools/go/ssa"
@@ -26,6 +27,7 @@ type errLink struct {
 	pkg, fn string // fn: "role:<name>" or an exported method name
 	callee  P
 	what    string
+	direct  bool // look only in the function itself (and its literals), not in helpers it calls
 }
 
 func runC04(c *Ctx) {
@@ -35,27 +37,27 @@ func runC04(c *Ctx) {
 
 	// ---- E1 error chain -------------------------------------------------------------------
 	links := []errLink{
-		{ipnisyncPkg, "role:ipnisync.request", Call("net/http.Client).Do"), "HTTP round trip"},
-		{ipnisyncPkg, "role:ipnisync.request", Call("net/http.NewRequestWithContext"), "request construction"},
-		{ipnisyncPkg, "role:ipnisync.request", Op("dyncall", "", Op("param", "")), "response callback"},
-		{ipnisyncPkg, "role:ipnisync.blockfetch", c.RoleCall("ipnisync.request"), "block request"},
-		{ipnisyncPkg, "role:ipnisync.blockfetch", Op("dyncall", "", Field("StorageWriteOpener", Any())), "store write opener"},
-		{ipnisyncPkg, "role:ipnisync.blockfetch", Call("go-multihash.SumStream"), "digest of streamed body"},
-		{ipnisyncPkg, "role:ipnisync.blockfetch", Op("dyncall", "", Extract("1", Op("dyncall", "", Field("StorageWriteOpener", Any())))), "store commit"},
-		{ipnisyncPkg, "role:ipnisync.walk", c.RoleCall("ipnisync.blockfetch"), "verified block fetch in the read opener"},
-		{ipnisyncPkg, "role:ipnisync.walk", Op("dyncall", "", Field("StorageReadOpener", Any())), "read from the real store"},
-		{ipnisyncPkg, "role:ipnisync.walk", Call("linking.LinkSystem).Load"), "root load"},
-		{ipnisyncPkg, "role:ipnisync.walk", Call("traversal.Progress).WalkMatching"), "selector walk"},
-		{ipnisyncPkg, "Syncer.Sync", c.RoleCall("ipnisync.walk"), "traversal"},
-		{ipnisyncPkg, "Syncer.Sync", Call("selector.CompileSelector"), "selector compilation"},
-		{ipnisyncPkg, "Syncer.GetHead", c.RoleCall("ipnisync.request"), "head request"},
-		{ipnisyncPkg, "Syncer.GetHead", Call("head.SignedHead).Validate"), "head validation"},
-		{dagsyncPkg, "role:dagsync.handle", Invoke("dagsync.Syncer.Sync"), "sync client"},
-		{dagsyncPkg, "Subscriber.SyncAdChain", c.RoleCall("dagsync.handle"), "per-publisher sync"},
-		{dagsyncPkg, "Subscriber.SyncAdChain", Invoke("dagsync.Syncer.GetHead"), "head query"},
-		{dagsyncPkg, "Subscriber.SyncAdChain", c.RoleCall("dagsync.factory"), "sync client construction"},
-		{dagsyncPkg, "Subscriber.syncEntries", c.RoleCall("dagsync.handle"), "per-publisher sync"},
-		{dagsyncPkg, "Subscriber.syncEntries", c.RoleCall("dagsync.factory"), "sync client construction"},
+		{ipnisyncPkg, "role:ipnisync.request", Call("net/http.Client).Do"), "HTTP round trip", false},
+		{ipnisyncPkg, "role:ipnisync.request", Call("net/http.NewRequestWithContext"), "request construction", false},
+		{ipnisyncPkg, "role:ipnisync.request", Op("dyncall", "", Op("param", "")), "response callback", false},
+		{ipnisyncPkg, "role:ipnisync.blockfetch", c.RoleCall("ipnisync.request"), "block request", false},
+		{ipnisyncPkg, "role:ipnisync.blockfetch", Op("dyncall", "", Field("StorageWriteOpener", Any())), "store write opener", false},
+		{ipnisyncPkg, "role:ipnisync.blockfetch", Call("go-multihash.SumStream"), "digest of streamed body", false},
+		{ipnisyncPkg, "role:ipnisync.blockfetch", Op("dyncall", "", Extract("1", Op("dyncall", "", Field("StorageWriteOpener", Any())))), "store commit", false},
+		{ipnisyncPkg, "role:ipnisync.walk", c.RoleCall("ipnisync.blockfetch"), "verified block fetch in the read opener", false},
+		{ipnisyncPkg, "role:ipnisync.walk", Op("dyncall", "", Field("StorageReadOpener", Any())), "read from the real store", false},
+		{ipnisyncPkg, "role:ipnisync.walk", Call("linking.LinkSystem).Load"), "root load", true},
+		{ipnisyncPkg, "role:ipnisync.walk", Call("traversal.Progress).WalkMatching"), "selector walk", false},
+		{ipnisyncPkg, "Syncer.Sync", c.RoleCall("ipnisync.walk"), "traversal", false},
+		{ipnisyncPkg, "Syncer.Sync", Call("selector.CompileSelector"), "selector compilation", false},
+		{ipnisyncPkg, "Syncer.GetHead", c.RoleCall("ipnisync.request"), "head request", false},
+		{ipnisyncPkg, "Syncer.GetHead", Call("head.SignedHead).Validate"), "head validation", false},
+		{dagsyncPkg, "role:dagsync.handle", Invoke("dagsync.Syncer.Sync"), "sync client", false},
+		{dagsyncPkg, "Subscriber.SyncAdChain", c.RoleCall("dagsync.handle"), "per-publisher sync", false},
+		{dagsyncPkg, "Subscriber.SyncAdChain", Invoke("dagsync.Syncer.GetHead"), "head query", false},
+		{dagsyncPkg, "Subscriber.SyncAdChain", c.RoleCall("dagsync.factory"), "sync client construction", false},
+		{dagsyncPkg, "Subscriber.syncEntries", c.RoleCall("dagsync.handle"), "per-publisher sync", false},
+		{dagsyncPkg, "Subscriber.syncEntries", c.RoleCall("dagsync.factory"), "sync client construction", false},
 	}
 	for _, l := range links {
 		var fn *Fn
@@ -69,7 +71,14 @@ func runC04(c *Ctx) {
 			c.Unk("C04.E1-error-chain", key0, token.NoPos, "function of the chain not found")
 			continue
 		}
-		sites := c.Calls(fn.SSA, l.callee)
+		var sites []CallSite
+		d := 2
+		if l.direct {
+			d = 0
+		}
+		for _, st := range c.CallsInl(fn.SSA, l.callee, d) {
+			sites = append(sites, st.CallSite)
+		}
 		if len(sites) == 0 {
 			c.Unk("C04.E1-error-chain", key0, fn.SSA.Pos(), "link of the error chain not found (callee no longer called here)")
 			continue
@@ -322,7 +331,39 @@ func c04Fallback(c *Ctx) {
 		c.Unk("C04.E5-fallback-committed-on-success", "ipnisync.(*Syncer).fetch", token.NoPos, "request routine not found")
 		return
 	}
-	// who writes the fallback state
+	// the per-client request state: fields of the request routine's receiver that the routine
+	// (or a helper only it calls) stores to; the fallback flag is the bool among them that it sets to true
+	recvType := ""
+	if r := fetch.SSA.Signature.Recv(); r != nil {
+		if n, ok := deref(r.Type()).(*types.Named); ok {
+			recvType = n.Obj().Name()
+		}
+	}
+	state := map[string]bool{}
+	flag := ""
+	collect := func(g *ssa.Function) {
+		instrs(g, func(in ssa.Instruction) {
+			if st, ok := in.(*ssa.Store); ok {
+				if a := c.E(st.Addr); a.Op == "field" && fieldOwner(a) == recvType && a.Args[0].Op != "complit" {
+					state[a.Name] = true
+					if cv, isC := st.Val.(*ssa.Const); isC && cv.Value != nil && cv.Value.ExactString() == "true" {
+						flag = a.Name
+					}
+				}
+			}
+		})
+	}
+	collect(fetch.SSA)
+	for _, f := range c.Funcs(ipnisyncPkg) {
+		if callsOnlyFrom(c, f.SSA, fetch.SSA) {
+			collect(f.SSA)
+		}
+	}
+	if flag == "" {
+		c.OK("C04.E5-fallback-committed-on-success", c.short(fetch.SSA.String())+" › no fallback switch", fetch.SSA.Pos(), "the request routine never switches a mode flag on")
+		return
+	}
+	// who writes the request state
 	for _, f := range c.Funcs(ipnisyncPkg) {
 		instrsDeep(f.SSA, func(g *ssa.Function, in ssa.Instruction) {
 			st, ok := in.(*ssa.Store)
@@ -330,7 +371,7 @@ func c04Fallback(c *Ctx) {
 				return
 			}
 			a := c.E(st.Addr)
-			if a.Op != "field" || fieldOwner(a) != "Syncer" || (a.Name != "noPath" && a.Name != "rootURL" && a.Name != "urls") {
+			if a.Op != "field" || fieldOwner(a) != recvType || !state[a.Name] {
 				return
 			}
 			if a.Args[0].Op == "complit" {
@@ -341,7 +382,7 @@ func c04Fallback(c *Ctx) {
 			c.Check(okWho, "C04.E5-fallback-who-writes", c.short(top.String())+" › "+a.Name, st.Pos(), "written by the request routine (or a helper only it calls)", "sync client address/fallback state written outside the request routine")
 		})
 	}
-	c.Floor("C04.E5-fallback-who-writes", 4)
+	c.Floor("C04.E5-fallback-who-writes", 2)
 
 	isUndo := func(in ssa.Instruction) bool {
 		ci, ok := in.(ssa.CallInstruction)
@@ -355,7 +396,7 @@ func c04Fallback(c *Ctx) {
 		resets := false
 		instrs(sc, func(o ssa.Instruction) {
 			if st, ok := o.(*ssa.Store); ok {
-				if a := c.E(st.Addr); a.Op == "field" && a.Name == "noPath" {
+				if a := c.E(st.Addr); a.Op == "field" && a.Name == flag {
 					if cv, ok := st.Val.(*ssa.Const); ok && cv.Value != nil && cv.Value.ExactString() == "false" {
 						resets = true
 					}
@@ -379,7 +420,7 @@ func c04Fallback(c *Ctx) {
 			return
 		}
 		a := c.E(st.Addr)
-		if a.Op != "field" || a.Name != "noPath" {
+		if a.Op != "field" || a.Name != flag {
 			return
 		}
 		if cv, ok := st.Val.(*ssa.Const); !ok || cv.Value == nil || cv.Value.ExactString() != "true" {
